@@ -285,3 +285,25 @@ def facts_at(fn, node):
         out |= cfg_facts(fn)[n.id]
     out |= context_facts(fn, node)
     return close_under_negation(out)
+
+
+def facts_at_resolved(fn, node):
+    """facts_at plus, for every fact whose text is a bare local name (a flag such as ``ascending = dir > 0``) with a
+    single pure definition, the same fact about the defining expression."""
+    from .dataflow import defs_reaching
+    out = set(facts_at(fn, node))
+    extra = set()
+    for k, t in out:
+        name, neg = t, False
+        if t.startswith("not "):
+            name, neg = t[4:], True
+        if not name.isidentifier():
+            continue
+        ds = defs_reaching(fn, name, node)
+        if len(ds) == 1 and ds[0].kind == "assign" and ds[0].value is not None and isinstance(ds[0].target, ast.Name):
+            v = ds[0].value
+            if all(isinstance(x, (ast.Name, ast.Constant, ast.Compare, ast.BoolOp, ast.UnaryOp, ast.Load, ast.cmpop, ast.boolop,
+                                  ast.unaryop, ast.Attribute, ast.BinOp, ast.operator)) for x in ast.walk(v)):
+                truth = (k == "T") != neg
+                extra |= set(test_facts(v, truth))
+    return close_under_negation(out | extra)
